@@ -88,19 +88,8 @@ def recovery_rules(ctx, rep, prefix: str, classes: list[str]) -> None:
             d = A.keyword(c, "dimension") or (c.args[1] if len(c.args) > 1 else None)
             ok = d is not None and " ".join(ast.unparse(d).split()) == "dimension + 1"
             rep.ob(f"{prefix}.4", f"recursion:{ci.name}:call{i}:dimension+1", ok, inner.loc(c), f"recursive call passes dimension=`{ast.unparse(d) if d is not None else None}`; it must be `dimension + 1` (bounded by the last-dimension base case)")
-        # three-way split
-        chain = [n for n in A.walk_no_nested(inner.node) if isinstance(n, ast.If) and isinstance(n.test, ast.Compare) and {ast.unparse(n.test.left), ast.unparse(n.test.comparators[0])} == {"center_split_start_idx", "center_split_end_idx"}]
-        ok = False
-        detail = "center/descend case analysis not found"
-        if chain:
-            top = chain[0]
-            lt = isinstance(top.test.ops[0], ast.Lt) and ast.unparse(top.test.left) == "center_split_start_idx"
-            el = top.orelse[0] if len(top.orelse) == 1 and isinstance(top.orelse[0], ast.If) else None
-            gt = el is not None and isinstance(el.test, ast.Compare) and isinstance(el.test.ops[0], ast.Gt) and ast.unparse(el.test.left) == "center_split_start_idx" and not el.orelse
-            desc = el is not None and any(isinstance(s, ast.Return) and isinstance(s.value, ast.Call) and isinstance(s.value.func, ast.Name) and s.value.func.id == inner.name for s in el.body)
-            ok = lt and gt and desc
-            detail = f"`if start < end` takes the center slab ({lt}); `elif start > end` (strict, no else) descends the whole block one dimension ({gt and desc}); when they are equal the range straddles exactly one slab boundary and falls through to the left/right split"
-        rep.ob(f"{prefix}.4", f"recursion:{ci.name}:three-way-case-analysis", ok, inner.loc(chain[0]) if chain else inner.loc(), detail, sample=True)
+        # (the three-way case analysis `start < end` / `start > end` / equal is decided by interpretation: C15.6 recovery-semantics;
+        # the earlier shape-of-code rule false-alarmed on a reordering of the two mutually exclusive arms)
 
 
 def slab_arithmetic(ctx, rep, rule: str, classes: list[str]) -> None:
@@ -157,13 +146,81 @@ def slab_arithmetic(ctx, rep, rule: str, classes: list[str]) -> None:
         rep.ob(rule, f"slab-recursion-ranges:{ci.name}", ranges == sorted([("block_start_idx", "center_split_start_idx"), ("center_split_end_idx", "block_end_idx")]), inner.loc(), f"left recursion covers [start, center_start), right recursion covers [center_end, end): {ranges}")
 
 
+def recovery_semantics(ctx, rep, rule: str, classes: list[str]) -> None:
+    """_split_tensor_block_recovery of every copy interpreted in the byte-layout tensor model on small shapes, exhaustively over
+    (start, end), plus ranges beyond offset 256: the result is, in order, exactly the maximal slabs of the original tensor that
+    tile [start, end) — each a view of the shard at (flat offset - start) with the slab's shape; a shard that is not 1-D
+    (0-dim included) raises ValueError; an empty range gives no blocks."""
+    import itertools
+    import math
+
+    from .. import simtensor as ST
+    from ..guards import Unsupported
+
+    repo = ctx.repo
+
+    def oracle(S, s, e):
+        def rec(s, e, d):
+            if s == e:
+                return []
+            if d == len(S) - 1:
+                return [(s, (e - s,))]
+            r = math.prod(S[d + 1:])
+            cs, ce = -(-s // r) * r, e // r * r
+            if cs < ce:
+                return rec(s, cs, d + 1) + [(cs, ((ce - cs) // r,) + tuple(S[d + 1:]))] + rec(ce, e, d + 1)
+            if cs > ce:
+                return rec(s, e, d + 1)
+            return rec(s, cs, d + 1) + rec(ce, e, d + 1)
+
+        return rec(s, e, 0)
+
+    cases = []
+    for S in [(5,), (3, 4), (4, 6), (1, 7), (6, 1), (2, 3, 5), (3, 3, 3), (2, 2, 2, 3)]:
+        n = math.prod(S)
+        for s, e in itertools.combinations_with_replacement(range(n + 1), 2):
+            cases.append((S, s, e))
+    cases += [((40, 16), 320, 333), ((40, 16), 300, 640), ((6, 10, 10), 250, 420), ((6, 10, 10), 300, 300), ((3, 200), 257, 600), ((2, 3, 100), 0, 600), ((2, 3, 100), 299, 301)]
+    for cq in classes:
+        ci = repo.cls(cq)
+        fi = repo.lookup_method(ci, "_split_tensor_block_recovery")
+        if fi is None:
+            raise AnalysisError(f"{rule}: {ci.name}._split_tensor_block_recovery not found")
+        bad = []
+        try:
+            for S, s, e in cases:
+                def mk(sim, S=S, s=s, e=e):
+                    w = sim.world
+                    shard = ST.SymT(w, w.new_storage((e - s) * 4, "shard"), 0, (e - s,), ST.DTYPES["float32"])
+                    return None, [shard, tuple(S), s, e], {}
+
+                got = ST.outcome(repo, fi, ci, mk)
+                want = tuple(("T", 0, (off - s) * 4, math.prod(sh) * 4, "float32", tuple(sh)) for off, sh in oracle(S, s, e))
+                if not (got[0] == "ok" and got[1] == want) and len(bad) < 2:
+                    bad.append((S, s, e, got[1] if got[0] == "ok" else got, want))
+            # shards that are not flat
+            for shape in ((), (2, 3), (1, 1)):
+                def mk2(sim, shape=shape):
+                    w = sim.world
+                    n_ = math.prod(shape)
+                    shard = ST.SymT(w, w.new_storage(n_ * 4, "shard"), 0, shape, ST.DTYPES["float32"])
+                    return None, [shard, (4, 6), 0, n_], {}
+
+                got = ST.outcome(repo, fi, ci, mk2)
+                if got != ("raise", "ValueError") and len(bad) < 3:
+                    bad.append(((4, 6), f"shard of shape {shape}", "", got, "raise ValueError"))
+        except Unsupported as u:
+            raise AnalysisError(f"{rule}: {fi.qual} outside the interpreted sub-language: {u}") from u
+        rep.ob(rule, f"recovery-semantics:{ci.name}", not bad, fi.loc(), f"{len(cases)} (shape, start, end) cases (8 small shapes exhaustively, 7 ranges beyond offset 256) and 3 non-flat shards: the blocks are the maximal slabs tiling [start, end), views of the shard in range order; non-flat shards raise ValueError" + (f"; for shape {bad[0][0]}, range [{bad[0][1]}, {bad[0][2]}): code gives {bad[0][3]}, documented {bad[0][4]}" if bad else ""), sample=True)
+
+
 def run(ctx, rep) -> None:
     rep.rule("C15.5", "integer arithmetic of one split: center = [ceil(start/size)*size, floor(end/size)*size), offsets/lengths of the three pieces tile the block (complete small boxes)")
     rep.attempt("slab_arithmetic", slab_arithmetic, ctx, rep, "C15.5", [FSDP, HSDP])
     rep.rule("C15.1", "every recovered block is a view of the given shard (view-only derivation); pieces concatenated in range order")
     rep.rule("C15.2", "guards: non-flat shard raises first; empty range yields []; last dimension returns the block; outer returns only the helper's result")
-    rep.rule("C15.3", "the FSDP and HSDP copies agree")
     rep.rule("C15.4", "recursion increases `dimension` at every call; whole-block descent only under strict center_start > center_end")
     rep.attempt("recovery_rules", recovery_rules, ctx, rep, "C15", [FSDP, HSDP])
-    rep.attempt("sibling_pairs", sibling_pairs, ctx, rep, "C15.3", [(FSDP, HSDP, "_split_tensor_block_recovery")])
+    rep.rule("C15.6", "the recovery of every copy, interpreted on small shapes exhaustively, returns exactly the maximal slabs tiling the range as views of the shard")
+    rep.attempt("recovery_semantics", recovery_semantics, ctx, rep, "C15.6", [FSDP, HSDP])
     rep.assume("that the pieces partition [start,end), are slabs of the stated form and are minimal in number is integer arithmetic over all shapes and ranges: NOT decided")
